@@ -134,6 +134,12 @@ var allOps = []op{
 	{"T0", "html('')", func(m *model) { m.setHeader("Content-Type", ctHTML); m.write("") }},
 	{"H0", "header('X-A','')", func(m *model) { m.setHeader("X-A", "") }},
 	{"C0", "cookie('c','',['path'=>'/'])", func(m *model) { m.addHeader("Set-Cookie", "c=") }},
+	// explicit header() calls on the names that json()/html()/redirect()/cookie() set
+	// implicitly: per name the last value set before the commit reaches the client,
+	// whoever set it
+	{"HC", "header('Content-Type','text/plain')", func(m *model) { m.setHeader("Content-Type", "text/plain") }},
+	{"HL", "header('Location','/x')", func(m *model) { m.setHeader("Location", "/x") }},
+	{"HK", "header('Set-Cookie','z=1')", func(m *model) { m.setHeader("Set-Cookie", "z=1") }},
 	// internal: what the onError closure of route /eops does; never enumerated
 	{"S5", "status(500)", func(m *model) { m.setStatus(500) }},
 	{"We", "write('E')", func(m *model) { m.write("E") }},
@@ -141,9 +147,9 @@ var allOps = []op{
 
 const (
 	baseOps = 12 // allOps[:baseOps] is the property's alphabet
-	extOps  = 26 // allOps[:extOps] adds the argument variants
-	opS5    = 26
-	opWe    = 27
+	extOps  = 29 // allOps[:extOps] adds the argument variants
+	opS5    = 29
+	opWe    = 30
 	opRET   = 255 // pseudo step: a layer (handler / middleware) returns -> pending status is committed
 )
 
